@@ -318,6 +318,9 @@ func ScenarioDone() {
 
 const libMod = "github.com/platinummonkey/go-concurrency-limits/"
 
+// BlockedOnLibraryMutex maps goroutine headers to the library frame under which they wait for a sync.Mutex / RWMutex.
+func BlockedOnLibraryMutex(dump string) map[string]string { return blockedOnLibraryMutex(dump) }
+
 func blockedOnLibraryMutex(dump string) map[string]string {
 	out := map[string]string{}
 	for _, b := range strings.Split(dump, "\n\n") {
